@@ -13,3 +13,27 @@ Proof. exact ProofsReach.reachb_spec. Qed.
 Theorem deep_depends_on_reach : forall g a b, index_inv g ->
   (deep_depends_on g a b = Ok true <-> reach (E (abs g)) a b).
 Proof. exact deep_depends_on_reach_l. Qed.
+
+(** 1. index_inv: the index maps exactly the node ids, each to its position.  It holds initially, is preserved
+    by every operation (rename: to a fresh path, [op_ok]) and hence along every history whose renames are fresh
+    ([hist_ok], a checkable predicate over the history); such a history never panics or runs out of fuel. *)
+Theorem index_inv_init : index_inv empty.
+Proof. exact index_inv_empty. Qed.
+
+Theorem index_inv_preserved : forall g o x, index_inv g -> op_ok g o = true -> step g o = Ok x -> index_inv (snd x).
+Proof. exact index_inv_step. Qed.
+
+Theorem index_inv_history : forall os, hist_ok empty os = true ->
+  exists g, run_ops empty os = Ok g /\ index_inv g.
+Proof. exact run_ops_empty_inv. Qed.
+
+(** 2. no operation panics on a state satisfying the invariant: get_node never indexes out of bounds,
+    inc_ref's unreachable! is unreachable, Vec::remove is in bounds, tsort's reorder unwrap cannot fail *)
+Theorem step_no_panic : forall g o, index_inv g -> step g o <> Panic.
+Proof. exact step_no_panic_l. Qed.
+
+(** 3. the fuel of the model is enough: the recursions of the Rust code terminate *)
+Theorem fuel_enough : forall g, index_inv g ->
+  (forall a b, deep_depends_on g a b <> Fuel) /\ (forall p, ancestors g p <> Fuel) /\
+  tsort (nodes g) <> Fuel /\ (forall o, step g o <> Fuel).
+Proof. exact fuel_enough_l. Qed.
